@@ -320,10 +320,42 @@ func c14RunLive(c c14LiveCase) (err error, stats map[string]int) {
 			violation = fmt.Sprintf(format, args...)
 		}
 	}
+	// demand is the number of procs asked for and not yet returned or cancelled (what the manager calls
+	// need: Offer, cancel and Done are synchronous hand-overs to the manager goroutine); peak is its
+	// maximum so far. "No more machines are started than demand and the parallelism limit justify":
+	// the manager never shuts machines down, so at any time the machines alive in the system (booting
+	// ones included) provide fewer than min(peak, maxp) + one machine's worth of procs.
+	demand, peak := 0, 0
+	addDemand := func(d int) {
+		demand += d
+		if demand > peak {
+			peak = demand
+		}
+	}
+	checkMachines := func(when string) {
+		lim := peak
+		if mgr.maxp < lim {
+			lim = mgr.maxp
+		}
+		bound := (lim + capacity - 1) / capacity
+		// machines that are not stopped, whether killed by the harness or lost on their own (a machine
+		// that misses its keepalives on a busy host is replaced, rightly)
+		n := 0
+		for _, bm := range b.Machines() {
+			if bm.State() != bigmachine.Stopped {
+				n++
+			}
+		}
+		if n > bound {
+			fail("%s: %d machines are alive; the demand so far peaked at %d procs, the parallelism limit is %d procs and a machine provides %d: at most %d machines are justified (history: %v)", when, n, peak, mgr.maxp, capacity, bound, history)
+		}
+	}
 	// roundTrip returns after the manager goroutine has processed everything sent to it before.
 	roundTrip := func() {
+		addDemand(1)
 		_, cancel := mgr.Offer(1000000, 1)
 		cancel()
+		addDemand(-1)
 	}
 	receive := func(p *pending, wait time.Duration) bool {
 		select {
@@ -366,6 +398,7 @@ func c14RunLive(c c14LiveCase) (err error, stats map[string]int) {
 			if op.B%5 == 4 {
 				procs = capacity // the whole machine, as an exclusive task asks for
 			}
+			addDemand(procs)
 			machc, cancel := mgr.Offer(op.A%3, procs)
 			p := &pending{procs: procs, machc: machc, cancel: cancel}
 			offers = append(offers, p)
@@ -399,6 +432,7 @@ func c14RunLive(c c14LiveCase) (err error, stats map[string]int) {
 					<-done
 					m.Done(p.procs, nil)
 				}
+				addDemand(-p.procs)
 				p.cancel = nil
 				stats["cancels"]++
 			}
@@ -421,6 +455,7 @@ func c14RunLive(c c14LiveCase) (err error, stats map[string]int) {
 				derr = errors.E(errors.Net, "connection reset")
 			}
 			g.m.Done(g.procs, derr)
+			addDemand(-g.procs)
 			history = append(history, fmt.Sprintf("op%d:%s %d on %s", oi, op.K, g.procs, g.m.Addr[len(g.m.Addr)-5:]))
 			roundTrip()
 			mu.Lock()
@@ -461,8 +496,12 @@ func c14RunLive(c c14LiveCase) (err error, stats map[string]int) {
 				stopped[m] = time.Now()
 				mu.Unlock()
 				stats["kills"]++
+				history = append(history, fmt.Sprintf("op%d:kill %s", oi, m.Addr[len(m.Addr)-5:]))
+				roundTrip()
+				time.Sleep(20 * time.Millisecond) // let the manager order the replacements
 			}
 		}
+		checkMachines(fmt.Sprintf("after op %d (%s)", oi, op.K))
 		// drain grants for older offers that became satisfiable
 		for _, p := range offers {
 			if !p.granted && p.cancel != nil {
@@ -502,6 +541,7 @@ func c14RunLive(c c14LiveCase) (err error, stats map[string]int) {
 		mu.Unlock()
 	}
 	roundTrip()
+	checkMachines("at the end")
 	if violation != "" {
 		return fmt.Errorf("%s", violation), stats
 	}
